@@ -40,6 +40,17 @@ CLAIMS = {
   note="Reference matrices and per-epoch parameters are computed in the harness from the parameter values it generated. Molodensky bound: 5 mm + (D²/a)/cos(lat) (+ 2·D·(e²+|h|/a) abridged).",
   technique="runtime monitoring: independent reference model (EPSG matrices, per-epoch static operators) and invariant monitor over generated parameter sets",
   ref="DESIGN.md §2 C07"),
+ "C11": dict(
+  text="Held on everything enumerated: all 1920 from-only and 1920 to-only descriptors, acceptance/rejection of all 4096 four-letter words with 5 valid and 8 invalid suffixes, adapt to=X against adapt inv from=X, all 442 signed partial permutations of axisswap plus all 177 000 index lists of length 1-5 over -5..5, all 24x24 unit pairs for xy and z against the published PROJ factors and the unit tables from the hook (each published name exactly once); quick adds 20 000 random from/to pairs, thorough enumerates all 1920 x 1920 pairs (exhaustive).",
+  note="The reference mapping is a table-driven transcription of Rumination 002 (a descriptor is a signed permutation of e n u f with an optional angular unit for the horizontal axes). Exact (bit) where no unit factor is involved, 2 ulp otherwise.",
+  technique="runtime monitoring: executable reference model over an exhaustively enumerated finite space",
+  category="exploration",
+  ref="DESIGN.md §2 C11"),
+ "C12": dict(
+  text="Held on everything explored: the reference stack machine (self-tested against every example table of Rumination 002 at start-up) agrees with the library on operands, counts, per-step stack depth (trace hook) and on a second application of the same handle, in both directions and for operand sets of size 0, 1 and 3, for all programs of <= 2 instructions over the full instruction set (219 instructions, bare and after a full push; 3 instructions over a reduced alphabet in the thorough tier) and for random programs up to length 13 with value-changing steps; ill-formed sub-commands are rejected.",
+  note="Programs in which swap meets fewer than two elements are generated but excluded from assertion (left unspecified by the property). Legacy pop underflow is modelled as documented by the code's contract: NaN in the element that could not be popped, count 0.",
+  technique="runtime monitoring: executable reference model (abstract stack machine) over exhaustively enumerated short programs and random long ones; online check of hooked stack depth",
+  ref="DESIGN.md §2 C12"),
  "C13": dict(
   text="Held on the executions observed: x_0/y_0 are added forward and removed inverse, lon_0 (lonc) in degrees equals shifting the input longitude, k_0 and the semi-major axis scale the unshifted plane linearly (1e-12 relative), utm/butm equal tmerc/btmerc with the UTM constants for all 60 zones and both hemispheres in both directions, merc on a sphere equals webmerc, lat_ts equals its k_0, one-parallel lcc equals two equal parallels, noop aliases leave hostile tuples bit-identical.",
   note="Pairs of differently parameterised instances inside one build; which projection accepts which parameter is read from the gamut hook.",
@@ -55,6 +66,11 @@ CLAIMS = {
   note="'Never hangs' is restated as bounded progress: a case that burns 10 CPU-seconds is re-run alone for 20 more before it is called a hang. Trusts catch_unwind + the write-ahead log to attribute crashes.",
   technique="runtime monitoring: crash/hang monitor (write-ahead event log, catch_unwind, CPU-time watchdog, supervisor) over hostile workloads",
   ref="DESIGN.md §1.4, §2 C09"),
+ "C19": dict(
+  text="Held on the executions observed: write/read round trips, bulk accessors, set_xy/xyz/xyzt, stomp for 15 container kinds plus a user container on the trait defaults (missing dimensions read 0 / NaN or the adapter's fixed values, Coor32 through f32); nth/set_nth out of range give NaN without crashing; typed, angular and bulk accessors, update, fill, new, scale, dot, hypot2/3 and + - * / agree with element-wise definitions on hostile values; ISO-6709 DDDMM.mmm / DDDMMSS.sss encodings, dms_to_dd, dm_to_dd, parse_sexagesimal, normalisation and the dm/dms operators agree with the formulas, on a lattice of [-720, 720] degrees (0.05 deg quick, 1 arc-second thorough) and at random with carries, |angle| < 1 degree and zero-degree components.",
+  note="Reference definitions are evaluated in the harness in plain f64; 1e-10 degrees for angle conversions.",
+  technique="runtime monitoring: independent reference definitions as oracle over generated values and a dense lattice",
+  ref="DESIGN.md §2 C19"),
 }
 
 ENGINE_PROPS = sorted(CLAIMS)
